@@ -6,7 +6,7 @@ from level_checks import classify_tv, seq_cfg, KF_WHAT
 
 KF_WHAT.update({"KF-C11-1": "the snapshot lists orders by timestamp, not by queue position: the restored level queues them in a different order",
                 "KF-C11-2": "the original level carried a stale ticket that the restored level does not have"})
-PATHS = ["snapshot", "package", "json", "from_ref", "data", "data_json", "text"]
+PATHS = ["snapshot", "package", "json", "package_forged", "json_forged", "from_ref", "data", "data_json", "text"]
 
 
 def snapmc(work, invs, subst=None):
